@@ -178,7 +178,8 @@ Section Spaces.
          end) subs xs ys
     | _, _, _ => false
     end.
-  Fixpoint extent (sp : space) : F :=
+  (* getMaximumExtent; [incl] says which weights take part in a compound's sum (a zero weight must not, its component may be unbounded) *)
+  Fixpoint extent_gen (incl : F -> bool) (sp : space) : F :=
     match sp with
     | RV bs => fsqrt A (rv_sqextent bs (f0 A))
     | SO2 => fpi A
@@ -188,8 +189,10 @@ Section Spaces.
     | Comp subs =>
       (fix go (ss : list (F * space)) (acc : F) : F :=
          match ss with
-         | (w, s) :: ss' => go ss' (if fge w (feps A) then acc +. w *. extent s else acc)
+         | (w, s) :: ss' => go ss' (if incl w then acc +. w *. extent_gen incl s else acc)
          | [] => acc
          end) subs (f0 A)
     end.
+  Definition extent (sp : space) : F := extent_gen (fun w => fgt w (f0 A)) sp.              (* the repaired rule: every positive weight *)
+  Definition extent_orig (sp : space) : F := extent_gen (fun w => fge w (feps A)) sp.       (* the pinned rule: weights >= epsilon only *)
 End Spaces.
